@@ -8,3 +8,4 @@ open Uflow.Props.C02
 #print axioms C02_live_example_state
 #print axioms C02_live_example_round
 #print axioms C02_live_example_skipped
+#print axioms C02_sys_resync_passes_no_reliable
